@@ -45,6 +45,7 @@ type Runner struct {
 	etxIDs         map[string]int
 	etxEmitted     map[int]etxRec
 	IndexChecks    int
+	DomCanonChecks int
 	craftExtra     []*types.Transaction
 	craftNeeds     common.Hash
 	crafted        bool
@@ -156,6 +157,33 @@ func (r *Runner) observe() (map[string]interface{}, *State, error) {
 	ev := map[string]interface{}{
 		"utxo": r.abstractSet(entrySet(st)), "head": headID, "mem_head": r.head(), "canon": canon, "canon_above_head": above,
 		"root_ok": rootOK, "size_ok": size == storedSize,
+	}
+	// the dominant chains reorganise too when the zone head moves to a block confirmed by other region / prime blocks: at every
+	// level the canonical number->hash index must be exactly the ancestry of that level's head (walked through the parent
+	// pointers of the headers themselves), with nothing above the head
+	for _, ctx := range []int{mininet.Prime, mininet.Region} {
+		c := r.E.Net.Cores[ctx]
+		ddb := r.E.Net.DBs[ctx]
+		h := c.CurrentHeader()
+		if h == nil {
+			continue
+		}
+		r.DomCanonChecks++
+		top := h.NumberU64(ctx)
+		for k := uint64(1); k <= 6; k++ {
+			if x := rawdb.ReadCanonicalHash(ddb, top+k); x != (common.Hash{}) {
+				r.Problems = append(r.Problems, Problem{"dom-canonical-index-differs", map[string]interface{}{"level": ctx, "height": top + k, "what": "entry above the head", "event": len(r.Events)}})
+				break
+			}
+		}
+		for steps := 0; h != nil && h.NumberU64(ctx) > 0 && steps < 400; steps++ {
+			if x := rawdb.ReadCanonicalHash(ddb, h.NumberU64(ctx)); x != h.Hash() {
+				r.Problems = append(r.Problems, Problem{"dom-canonical-index-differs", map[string]interface{}{"level": ctx, "height": h.NumberU64(ctx), "head_height": top,
+					"what": "canonical entry is not the head's ancestor at that height", "entry_empty": x == (common.Hash{}), "event": len(r.Events)}})
+				break
+			}
+			h = c.GetHeaderByHash(h.ParentHash(ctx))
+		}
 	}
 	if r.E.Net.Opt.IndexAddressUtxos {
 		// the per-address index must list exactly the unspent outputs of each address (derived from the 'ut' scan itself)
